@@ -18,6 +18,7 @@ type node struct {
 	data []byte
 	mode fs.FileMode
 	link string // non-empty: a symbolic link to this (absolute or relative) target
+	mt   int64  // modification time (logical seconds): set when the node is created or written, like the kernel does
 }
 
 // World is one simulated process environment. W == nil means "not simulating":
@@ -115,15 +116,24 @@ func (w *World) put(p string, dir bool, data []byte) {
 	p = filepath.Clean(p)
 	w.mkparents(p)
 	if dir {
-		w.fs[p] = &node{dir: true, mode: fs.ModeDir | 0o755}
+		w.fs[p] = &node{dir: true, mode: fs.ModeDir | 0o755, mt: w.Epoch + int64(w.IOSeq)}
 	} else {
-		w.fs[p] = &node{data: append([]byte(nil), data...), mode: 0o644}
+		w.fs[p] = &node{data: append([]byte(nil), data...), mode: 0o644, mt: w.Epoch + int64(w.IOSeq)}
 	}
 }
 
 // Put / Del / Move mutate the world from the outside (the harness, between
 // calls). They are not I/O calls of the code under test.
 func (w *World) Put(p string, dir bool, data []byte) { w.put(p, dir, data) }
+
+// PutKeepMtime rewrites a file but keeps its modification time.
+func (w *World) PutKeepMtime(p string, data []byte) {
+	old, ok := w.fs[filepath.Clean(p)]
+	w.put(p, false, data)
+	if ok {
+		w.fs[filepath.Clean(p)].mt = old.mt
+	}
+}
 
 func (w *World) Del(p string) {
 	p = filepath.Clean(p)
@@ -553,7 +563,7 @@ func (w *World) stat(name string) (fs.FileInfo, error) {
 	if n.dir {
 		ev.Digest = "dir"
 	}
-	return fileInfo{name: filepath.Base(p), size: int64(len(n.data)), mode: n.mode, mt: w.now()}, nil
+	return fileInfo{name: filepath.Base(p), size: int64(len(n.data)), mode: n.mode, mt: time.Unix(n.mt, 0).UTC()}, nil
 }
 
 func (w *World) readFile(name string) ([]byte, error) {
@@ -646,6 +656,7 @@ func (w *World) writeFile(name string, data []byte, perm fs.FileMode) error {
 		w.fs[p] = n
 	}
 	n.data = nil // O_TRUNC
+	n.mt = w.Epoch + int64(w.IOSeq)
 	ev.Data = Bytes{}
 	w.log(ev)
 
@@ -679,6 +690,7 @@ func (w *World) writeFile(name string, data []byte, perm fs.FileMode) error {
 	// the file may have been removed by a world event meanwhile: the open
 	// descriptor would still be writable; we write to the node we hold.
 	n.data = append([]byte(nil), data...)
+	n.mt = w.Epoch + int64(w.IOSeq)
 	ev.N = len(data)
 	ev.Res = "ok"
 	ev.Digest = digest(data)
